@@ -74,12 +74,20 @@ Definition resview_eqb (a b : res view) : bool :=
   | _, _ => false
   end.
 
+Definition resbytes_eqb (a b : res bytes) : bool :=
+  match a, b with
+  | Ok x, Ok y => bytes_eqb x y
+  | Panic, Panic => true
+  | _, _ => false
+  end.
+
 Definition out_eqb (a b : out) : bool :=
   match a, b with
   | OutObs v r, OutObs v' r' => resview_eqb v v' && raw_eqb r r'
   | OutBranch x, OutBranch y => branch_eqb x y
   | OutLookup x, OutLookup y => Bool.eqb x y
   | OutPanic, OutPanic => true
+  | OutParam x, OutParam y => list_eqb (pair_eqb bytes_eqb resbytes_eqb) x y
   | _, _ => false
   end.
 
@@ -109,7 +117,10 @@ Definition obs_views (outs : list out) : list (res view) :=
   flat_map (fun o => match o with OutObs v _ => [v] | _ => [] end) outs.
 
 Definition has_panic (outs : list out) : bool :=
-  existsb (fun o => match o with OutPanic => true | OutObs Panic _ => true | _ => false end) outs.
+  existsb (fun o => match o with
+                    | OutPanic => true | OutObs Panic _ => true
+                    | OutParam l => existsb (fun kv => match snd kv with Panic => true | Ok _ => false end) l
+                    | _ => false end) outs.
 
 Definition demanded (views : list (res view)) (x : xspec) : option view :=
   match x with
@@ -142,11 +153,38 @@ Fixpoint all_ok (views : list (res view)) (vs : list (res view)) (xs : list xspe
   | _, _ => false
   end.
 
-(* every legal use of the API in a generated history must succeed (no panic)
-   and every observation must be the demanded view *)
+(* Param(name), asked right after an observation: the specification's answer
+   on the view DEMANDED at that observation ([cur]; the derivation list [xs]
+   advances with every OutObs).  Where nothing is demanded (XNone) the answer
+   must at least be the one for the parameters the observation itself showed. *)
+Fixpoint getters_ok (views : list (res view)) (outs : list out) (xs : list xspec) (cur : option view) : bool :=
+  match outs with
+  | [] => true
+  | OutObs v _ :: r =>
+      match xs with
+      | x :: xs' =>
+          getters_ok views r xs' (match demanded views x, v with
+                                  | Some d, _ => Some d
+                                  | None, Ok s => Some s
+                                  | None, Panic => None
+                                  end)
+      | [] => false
+      end
+  | OutParam l :: r =>
+      (match cur with
+       | Some d => forallb (fun kv => resbytes_eqb (snd kv) (Ok (expected_param d (fst kv)))) l
+       | None => true
+       end) && getters_ok views r xs cur
+  | _ :: r => getters_ok views r xs cur
+  end.
+
+(* every legal use of the API in a generated history must succeed (no panic),
+   every observation must be the demanded view and every Param(name) the
+   demanded view's answer *)
 Definition spec_ok (c : case) : bool :=
   let views := obs_views (cs_outs c) in
-  negb (has_panic (cs_outs c)) && all_ok views views (cs_spec c).
+  negb (has_panic (cs_outs c)) && all_ok views views (cs_spec c)
+  && getters_ok views (cs_outs c) (cs_spec c) None.
 
 Definition mismatches (fx : bool) (cs : list case) : list nat := true_idx (map (fun c => negb (model_agrees fx c)) cs).
 Definition spec_violations (cs : list case) : list nat := true_idx (map (fun c => negb (spec_ok c)) cs).
